@@ -342,6 +342,7 @@ def run(ctx):
                               "read_then_commit_part", seed_base=840000)
     engine_check.scenario_run(ctx, "scen_engine.attr_commit_builder", MONITORS, nontrivial, RULE, 16, 300, 14,
                               "attribute_op_then_commit_part", seed_base=850000)
+    zoo_pass(ctx)
     dom, outside = theorem_domain(ctx, grid)
     ctx.coverage["theorem_domain"] = dom
     ctx.coverage["items_outside_theorem_domain_samples"] = outside
@@ -360,6 +361,89 @@ def run(ctx):
                        no_input=True)
 
 
+# ------------------------------------------------------------------ every registrable object, then every read of it
+def zoo_case(args):
+    """Register one object of C05's zoo (all seven types; wrapped keys with every shape of key wrapping data, incl. key
+    information WITHOUT cryptographic parameters; split keys; certificates; opaque) through the real client, wire and
+    engine, then send every well-formed read / lifecycle request about it: no answer may be General Failure."""
+    seed, version, label_idx, restart = args
+    import random as _r
+    import impl_e2e
+    from props import c05
+    from kmip.core import enums
+    from kmip.pie import exceptions as pex
+    r = _r.Random(seed)
+    L = impl_e2e.Loopback()
+    fails, answers = [], {}
+    try:
+        objs = c05.make_objects(r, version)
+        label, mk = objs[label_idx % len(objs)]
+        o = mk()
+        c = L.client(version)
+
+        def step(name, fn):
+            try:
+                fn()
+                answers[name] = "ok"
+            except pex.KmipOperationFailure as e:
+                answers[name] = "fail:%s" % getattr(e.reason, "name", e.reason)
+                if e.reason == enums.ResultReason.GENERAL_FAILURE:
+                    fails.append(("c13:general-failure:%s:%s" % (name, label.split("-")[0]),
+                                  "%s of a registered %s under KMIP %s answered General Failure (%s)"
+                                  % (name, label, version, str(e)[:160])))
+            except Exception as e:
+                answers[name] = "client:%s" % type(e).__name__
+        uid = [None]
+
+        def reg():
+            uid[0] = c.register(o)
+        step("register", reg)
+        if uid[0] is None:
+            return {"label": label, "version": version, "answers": answers, "fails": fails}
+        if restart:
+            L.restart()
+            c = L.client(version)
+        u = uid[0]
+        step("get", lambda: c.get(u))
+        step("getAttributes", lambda: c.get_attributes(u))
+        step("getAttributeList", lambda: c.get_attribute_list(u))
+        step("locate", lambda: c.locate())
+        if label != "opaque":
+            step("activate", lambda: c.activate(u))
+            step("get-active", lambda: c.get(u))
+            step("revoke", lambda: c.revoke(enums.RevocationReasonCode.CESSATION_OF_OPERATION, u))
+        step("get-again", lambda: c.get(u))
+        step("destroy", lambda: c.destroy(u))
+        step("get-destroyed", lambda: c.get(u))
+    finally:
+        L.close()
+    return {"label": label, "version": version, "answers": answers, "fails": fails}
+
+
+def zoo_pass(ctx):
+    import multiprocessing
+    import random as _r
+    from props import c05
+    nlabels = len(c05.make_objects(_r.Random(0), 14))
+    versions = [10, 12, 14, 20]
+    reps = 1 if ctx.tier == "quick" else 8
+    args = [(ctx.seed * 7001 + 131 * i + 17 * v + k, v, i, (i + v + k) % 3 == 0)
+            for k in range(reps) for v in versions for i in range(nlabels)]
+    with multiprocessing.get_context("fork").Pool(16) as pool:
+        res = pool.map(zoo_case, args, chunksize=2)
+    by_label, outcomes = {}, {}
+    n = 0
+    for a, rr in zip(args, res):
+        by_label[rr["label"]] = by_label.get(rr["label"], 0) + 1
+        for k, v in rr["answers"].items():
+            n += 1
+            outcomes["%s:%s" % (k, v)] = outcomes.get("%s:%s" % (k, v), 0) + 1
+        for sig, what in rr["fails"]:
+            ctx.report(sig, what, {"kind": "zoo", "args": list(a), "label": rr["label"]})
+    ctx.coverage["registered_object_zoo"] = {"cases": len(args), "requests": n, "labels": by_label, "answers": outcomes}
+    ctx.coverage["evaluations"] = (ctx.coverage.get("evaluations") or 0) + n
+
+
 def search(ctx, broken):
     grid = run_grid(ctx, 1.0)
     engine_check.report_monitor_failures(ctx, grid, MONITORS)
@@ -367,6 +451,11 @@ def search(ctx, broken):
 
 
 def replay(ctx, rep):
+    if (rep.get("replay") or {}).get("kind") == "zoo":
+        rr = zoo_case(tuple(rep["replay"]["args"]))
+        for sig, what in rr["fails"]:
+            print("  %s: %s" % (sig, what))
+        return not rr["fails"]
     r = rep.get("replay", rep)
     if r.get("kind") == "frame":
         import decode_check
